@@ -18,7 +18,7 @@ PID = 'C01'
 RULE = ('cases = (package, extinction law, A_V range, sources) drawn from the quantifier of C01; a case is '
         'non-trivial when at least one model is fitted with >=2 fitted bands of distinct extinction coefficient; '
         'distinct = distinct canonical hash of the generated inputs')
-REQUIRED_BRANCHES = ['same_source_object_refitted', 'wav_filter_off_grid', 'rebuilt_in_place', 'wav_filter_other_unit', 'pkg_v1_mJy', 'pkg_v1_Jy', 'pkg_cube', 'pkg_cube_memmap', 'range_end_zero', 'law_other_unit', 'clamp_low', 'clamp_high', 'interior', 'lo_eq_hi', 'limit_violated', 'limit_ok', 'flag4', 'flag0or9']
+REQUIRED_BRANCHES = ['source_arrays_f8', 'source_arrays_list', 'source_arrays_int', 'source_arrays_be', 'source_arrays_readonly', 'tiny_model_flux', 'same_source_object_refitted', 'wav_filter_off_grid', 'rebuilt_in_place', 'wav_filter_other_unit', 'pkg_v1_mJy', 'pkg_v1_Jy', 'pkg_cube', 'pkg_cube_memmap', 'range_end_zero', 'law_other_unit', 'clamp_low', 'clamp_high', 'interior', 'lo_eq_hi', 'limit_violated', 'limit_ok', 'flag4', 'flag0or9']
 ASSUMPTIONS = ['IEEE rounding is not modelled: comparison tolerance 1e-9 x condition number',
                'decisions closer than 1e-7 to their threshold are compared in relaxed mode']
 N = {'quick': 160, 'thorough': 12000}
@@ -40,6 +40,21 @@ def gen_case(rng, directed=None):
     tw = sorted({lo_w, hi_w} | {nice(rng, lo_w, hi_w, 3) for _ in range(nt)})
     chi = [nice(rng, 1., 1e4, 3) for _ in tw]
     models = [[nice(rng, 1e-3, 1e3, 4) for _ in range(nb)] for _ in range(nm)]
+    # strictly positive but very small model fluxes (1e-14 .. 1e-8 mJy) are fluxes like any other: a whole band, a whole
+    # model, or single entries
+    tiny = rng.random()
+    if tiny < 0.10:
+        jt = rng.randrange(nb)
+        for mf in models:
+            mf[jt] = float('%.4g' % (mf[jt] * 10 ** -rng.randint(9, 15)))
+    elif tiny < 0.20:
+        it = rng.randrange(nm)
+        models[it] = [float('%.4g' % (x * 10 ** -rng.randint(9, 15))) for x in models[it]]
+    elif tiny < 0.30:
+        for mf in models:
+            for j in range(nb):
+                if rng.random() < 0.2:
+                    mf[j] = float('%.4g' % (mf[j] * 10 ** -rng.randint(9, 15)))
     kind = directed or rng.choice(['interior', 'clamp_low', 'clamp_high', 'lo_eq_hi', 'wide', 'wide', 'zero_end'])
     a0 = round(rng.uniform(0.5, 12.), 2)
     # the law may be tabulated in any length unit (the filters' wavelengths are converted to it by the code)
@@ -81,7 +96,15 @@ def gen_case(rng, directed=None):
             else:
                 flux.append(f)
                 err.append(float('%.3g' % (f * nice(rng, 1e-3, 0.5, 2))))
-        sources.append(dict(flags=flags, flux=flux, err=err))
+        # how the caller holds the photometry: float64 arrays, plain Python lists, integer arrays (whole-number fluxes
+        # with fractional errors), big-endian arrays as they come out of FITS tables, read-only arrays
+        rep = rng.choice(['f8', 'f8', 'list', 'int', 'int', 'be', 'readonly'])
+        if rep == 'int':
+            if 4 in flags or any(f < 0.5 or f > 1e15 for f in flux):
+                rep = 'list'
+            else:
+                flux = [float(round(f)) for f in flux]
+        sources.append(dict(flags=flags, flux=flux, err=err, rep=rep))
     # how the model fluxes reach the fitter: convolved-flux files in mJy or Jy (version 1), or a cube package fitted at
     # tabulated wavelengths (version 2; with use_memmap the fluxes are held as float32)
     pkg = rng.choice(['v1_mJy', 'v1_mJy', 'v1_Jy', 'cube', 'cube_memmap'])
@@ -101,6 +124,34 @@ def gen_case(rng, directed=None):
         req.append(float('%.6g' % (w + off)))
     return dict(req_wavs=req, kind=kind, wavs=wavs, tab_w=tw, tab_chi=chi, wav_unit=wav_unit, models=models, av=av, sources=sources,
                 pkg=pkg, filt_units=filt_units, rebuild=rebuild)
+
+
+def source_as(src, name):
+    """the Source with its arrays held the way the case says (`rep`); the numbers are the same in every
+    representation, so the model side is unaffected"""
+    from sedfitter.source import Source
+    rep = src.get('rep', 'f8')
+    if rep == 'f8':
+        return pk.make_source(name, src['flags'], src['flux'], src['err'])
+    s = Source()
+    s.name = name
+    s.x, s.y = 0., 0.
+    if rep == 'list':
+        s.valid, s.flux, s.error = [int(f) for f in src['flags']], [float(x) for x in src['flux']], [float(x) for x in src['err']]
+    elif rep == 'int':
+        s.valid = np.array(src['flags'], dtype=np.int32)
+        s.flux = np.array([int(x) for x in src['flux']], dtype=np.int64)
+        s.error = np.array(src['err'], dtype=float)
+    elif rep == 'be':
+        s.valid = np.array(src['flags'], dtype='>i2')
+        s.flux = np.array(src['flux'], dtype='>f8')
+        s.error = np.array(src['err'], dtype='>f8')
+    else:
+        a, b, c = np.array(src['flags'], dtype=int), np.array(src['flux'], dtype=float), np.array(src['err'], dtype=float)
+        for arr in (a, b, c):
+            arr.flags.writeable = False
+        s.valid, s.flux, s.error = a, b, c
+    return s
 
 
 def fitter_wavs(case):
@@ -272,12 +323,15 @@ def run_case(case):
             branches.add('range_end_zero')
         if case.get('wav_unit', 'micron') != 'micron':
             branches.add('law_other_unit')
+        if any(x < 1e-8 for mf in case['models'] for x in mf):
+            branches.add('tiny_model_flux')
         nontrivial = False
         for si, src in enumerate(case['sources']):
             if singular(case, src):
                 continue
             nontrivial = True
-            s = pk.make_source('s%d' % si, src['flags'], src['flux'], src['err'])
+            s = source_as(src, 's%d' % si)
+            branches.add('source_arrays_' + src.get('rep', 'f8'))
             with common.quiet():
                 info = fitter.fit(s)
                 # the same Source OBJECT fitted again must give the same result (the first fit must not have
@@ -393,7 +447,7 @@ def property_holds(case):
         for si, src in enumerate(case['sources']):
             if singular(case, src):
                 continue
-            s = pk.make_source('s%d' % si, src['flags'], src['flux'], src['err'])
+            s = source_as(src, 's%d' % si)
             with common.quiet():
                 info = fitter.fit(s)
             got = pk.fit_arrays(info)
